@@ -4,7 +4,9 @@
 // every link graph over the link names l1 l2 (l3) x 2 placements x 18 target
 // shapes, on a skeleton {d/, d/f, f}; every query path up to a length over
 // {l1,l2,l3,d,f,..,nope}, absolute and relative to R and to R/d; every call of
-// an 18-call alphabet. Each configuration is built on a fresh MemFS and
+// a 21-call alphabet (which includes entering what the query resolves to:
+// Chdir, and Open + File.Chdir, each questioned from inside with Getwd and
+// names through ".."). Each configuration is built on a fresh MemFS and
 // identically on a tmpfs directory at the same absolute path; each call runs
 // on both; the Linux kernel (through osfs.OsFS, i.e. package os) and
 // path/filepath.EvalSymlinks are the oracle. Mutating calls run on a pristine
@@ -18,7 +20,10 @@
 // alphabet by the open-flag product of space.go: OpenFile+Close with every
 // flag set of {RDONLY,WRONLY,RDWR} x {-,EXCL} x {-,CREATE} x {-,TRUNC} on
 // every query path - whether a final link is followed is decided by the
-// combination of the flags. A separate sweep covers chains of 1..70 links.
+// combination of the flags. The spelling stage (S) replaces the target shapes
+// by their unclean spellings (trailing /, //, /., leading ./, a doubled inner
+// separator): Readlink returns Clean of what was given. A separate sweep
+// covers chains of 1..70 links.
 // Worker subprocesses each own a scratch tree and a cwd.
 package main
 
@@ -404,7 +409,7 @@ func main() {
 			exh = false
 		}
 
-		if gk := fmt.Sprint(st.NLinks, st.Moved); sr.ConfigsDone > graphs[gk] {
+		if gk := fmt.Sprint(st.NLinks, st.Moved, st.Spelled); sr.ConfigsDone > graphs[gk] {
 			graphs[gk] = sr.ConfigsDone
 		}
 
@@ -487,8 +492,8 @@ func main() {
 		Coverage: map[string]any{
 			"states": states, "transitions": evalsAll, "traces_validated_against_impl": evalsAll,
 			"evaluations": evalsAll, "distinct_nontrivial": len(classes),
-			"rule": "states = distinct configurations built on both sides (link graphs: every assignment of placement {R, R/d} x target shape to the link names; moved graphs: a graph x one move - a fixed sequence of Rename calls applied to both sides after the last Symlink: the link to the other directory, there and back, the directory R/d renamed, there and back, R/dd taking the old name of R/d, the root R renamed; plus link chains of length 1..70); " +
-				"transitions = evaluations = one call on one query path in one configuration, executed on MemFS and on tmpfs and compared (outcome kind, returned value, and for mutating calls the whole trees); in the flag stages (F, F4, F2) the calls are Lstat and OpenFile(path, flags, 0644)+Close for each of the 24 flag sets {O_RDONLY,O_WRONLY,O_RDWR} x {-,O_EXCL} x {-,O_CREATE} x {-,O_TRUNC}, every one treated as mutating (pristine trees, whole trees compared afterwards: what was created or truncated, and where); " +
+			"rule": "states = distinct configurations built on both sides (link graphs: every assignment of placement {R, R/d} x target shape to the link names; moved graphs: a graph x one move - a fixed sequence of Rename calls applied to both sides after the last Symlink: the link to the other directory, there and back, the directory R/d renamed, there and back, R/dd taking the old name of R/d, the root R renamed; spelled graphs (stage S): the target of the link is an unclean spelling of a target shape - the shape with a trailing /, a trailing //, a trailing /., a leading ./ (// after the root for an absolute target) or its inner separator doubled; plus link chains of length 1..70); " +
+				"transitions = evaluations = one call on one query path in one configuration, executed on MemFS and on tmpfs and compared (outcome kind, returned value, and for mutating calls the whole trees); the calls Chdir+probes and Open+File.Chdir+probes make what the query resolves to the working directory (Chdir(q); f = Open(q), f.Chdir(), f.Close()) and then ask " + enterProbeList() + " from inside - the answers are one compared value - and change the working directory back; in the flag stages (F, F4, F2) the calls are Lstat and OpenFile(path, flags, 0644)+Close for each of the 24 flag sets {O_RDONLY,O_WRONLY,O_RDWR} x {-,O_EXCL} x {-,O_CREATE} x {-,O_TRUNC}, every one treated as mutating (pristine trees, whole trees compared afterwards: what was created or truncated, and where); " +
 				"distinct_nontrivial = distinct (call, kernel outcome, class of the query's final component: file|dir|link>file|link>dir|link>dangling|link>loop|missing; chain-length class for the sweep) classes observed",
 			"samples": samples, "exhaustive": exh,
 			"bound":  fmt.Sprintf("chain sweep N=1..%d (complete); stages %s; completed: {%s}", chainMax, strings.Join(bounds, " || "), strings.Join(done, ",")),
@@ -508,7 +513,9 @@ func main() {
 			"FileInfo.Name is not compared for a query ending in '..'; directory size and link count are not compared; mtimes only for the instant set by Chtimes",
 			"with 2 links the name l3 does not exist: target l3 and query component l3 are the class of 'nope' and are left out of the 2-link stages (likewise l2 in the 1-link stages)",
 			"moved stages (M, M4, N): the moves are Rename calls that the kernel performs without error on every graph (a failure on the kernel side is a harness error, a failure or a different tree on MemFS is reported under kind=setup); the oracle is the kernel's answer on the tmpfs tree that went through the same renames; after the move 'root' queries, cwd and call operands use the new name of R while absolute targets keep the old one; a Sub view as a second route to a link is not covered (no kernel counterpart short of chroot)",
-			"flag stages (F, F4, F2): the oracle for OpenFile(path, flags, 0644) is open(2) on tmpfs given the same flags through os.OpenFile (which adds O_CLOEXEC only), as root, umask 022; the handle is closed at once, so what is compared is the outcome of the open (ok or errno) and the trees afterwards (a file created at the end of a dangling link, a file truncated through a link, nothing touched after a failure); O_APPEND, O_SYNC and the access mode 3 are not in the product; the flag product is crossed with the unmoved graphs only (moves x the 19-call alphabet are the stages M, M4, N)",
+			"flag stages (F, F4, F2): the oracle for OpenFile(path, flags, 0644) is open(2) on tmpfs given the same flags through os.OpenFile (which adds O_CLOEXEC only), as root, umask 022; the handle is closed at once, so what is compared is the outcome of the open (ok or errno) and the trees afterwards (a file created at the end of a dangling link, a file truncated through a link, nothing touched after a failure); O_APPEND, O_SYNC and the access mode 3 are not in the product; the flag product is crossed with the unmoved graphs only (moves x the 21-call alphabet are the stages M, M4, N)",
+			"entering calls (Chdir+probes, Open+File.Chdir+probes): the oracle is chdir(2) / fchdir(2) on the worker process (os.Chdir, (*os.File).Chdir), os.Getwd with $PWD unset (getcwd(2): the link-free path of the directory) and the relative probe names resolved by the kernel from that directory; both sides go back to the working directory of the mode (/, R, the directory made as R/d) after the probes, and a failure to go back on MemFS is part of the compared value; every worker process owns its working directory",
+			"spelling stage (S): symlink(2) stores the target as written, MemFS its lexically cleaned form - Readlink is compared with filepath.Clean of the kernel's answer, the Lstat size of a link with the kernel's for the cleaned target (normalisation target-cleaned), and the dumps of freshly built trees must agree on the cleaned targets (else kind=setup); where the kernel resolves the written target differently from the cleaned one (a trailing separator demands a directory) the disagreement is reported under kind=normalised norm=target-cleaned like for the shape d/../l1; the spellings are crossed with 1-link graphs and no moves",
 			"random larger trees (last clause of the quantifier) are sampling and are not run",
 		},
 		Violations: rep.NewCount(),
@@ -522,4 +529,14 @@ func main() {
 	}
 
 	os.Exit(code)
+}
+
+// enterProbeList names the questions asked from inside an entered directory.
+func enterProbeList() string {
+	var ps []string
+	for _, c := range enterProbes {
+		ps = append(ps, probeString(c))
+	}
+
+	return strings.Join(ps, ", ")
 }
